@@ -158,6 +158,15 @@ func TestVerifC12_goldilocksscalar(t *testing.T) {
 			f.Expect(r, "FromBytes", "len-sweep", cid, z, v, true, v)
 		}
 	}
+	// FromBytes over the (non-negative) boundary ladder around l, 2^446, 2^448, k*l and longer values, junk-filled receiver
+	for _, pad := range []int{0, 3} {
+		pad := pad
+		f.CheckFromInt(r, "FromBytes", 448, bf.NonNegative(bf.SignedLadder(bf.L448, 446, "goldilocks")), true, func(z bf.Elem, v *big.Int) bool {
+			z.(*Scalar).FromBytes(bf.LE(v, (v.BitLen()+7)/8+pad))
+			return true
+		})
+	}
+	r.RequireCounter("goldilocks.Scalar.FromBytes.from-int", 80)
 	r.Count("goldilocks.Scalar.FromBytes.len-sweep", nfb)
 	for i := 0; i < 3; i++ {
 		k := i*all.Len()/3 + 5
